@@ -277,6 +277,11 @@ class Unsupported(Exception):
     """Raised by the executor for constructs outside the subset -> havoc + taint."""
 
 
+class MissingEvent(Unsupported):
+    """A trace query (call_arg / call_result) about a call that did not happen on this path: the
+    comparison that contains it is false."""
+
+
 def box(x):
     """SV -> z3 term of sort V."""
     k = x.k
